@@ -86,6 +86,7 @@ func main() {
 			}
 			cases = append(cases, names.ExhaustiveC11(r, k)...)
 			cases = append(cases, names.RandomC11(r, n)...)
+			cases = append(cases, names.ImportedC11(r, n)...)
 		case "C12":
 			n, m := 30, 300
 			if *thorough {
@@ -93,6 +94,7 @@ func main() {
 			}
 			cases = append(cases, names.RichC12(r, n)...)
 			cases = append(cases, names.NestedC12(r, n)...)
+			cases = append(cases, names.WeirdC12(r, 3*n)...)
 			cases = append(cases, names.CaptureC12(r, m)...)
 			cases = append(cases, names.F13Case())
 		default:
